@@ -517,6 +517,8 @@ static void observe(SampleBatch &b, const World &w, bool ret, const ob::State *s
 static void emitBatch(vt::Trace &t, SampleBatch &b, json head)
 {
     head["e"] = "Sample";
+    if (!head.contains("degen"))
+        head["degen"] = 0;
     head["ret"] = b.ret;
     head["inb"] = b.inb;
     head["lt"] = b.lt;
@@ -568,24 +570,34 @@ static void buildWorld(World &w, const SampleCfg &c, vt::Rng &r, double &maxC, d
     makePair(r, c.n, c.d, c.dir, c.off, s, g);
     w.starts.push_back(s);
     w.goals.push_back(g);
-    // further starts / goals: displaced copies at 0.3 .. 1.5 focal distances, so that the PHSs overlap
-    for (int i = 1; i < c.starts; ++i)
+    // further starts / goals: displaced copies at 0.3 .. 1.5 focal distances, so that the PHSs overlap; every
+    // start/goal pair stays separated by at least 0.6 d (the property's quantifier: more than the 1e-9 tolerance)
+    for (int tries = 0;; ++tries)
     {
-        Pose e = s;
-        Vec dd = randomDirection(r, c.n);
-        for (int k = 0; k < c.n; ++k)
-            e.p[k] += (0.3 + 0.6 * i) * c.d * dd[k];
-        randomRotation(r, e);
-        w.starts.push_back(e);
-    }
-    for (int i = 1; i < c.goals; ++i)
-    {
-        Pose e = g;
-        Vec dd = randomDirection(r, c.n);
-        for (int k = 0; k < c.n; ++k)
-            e.p[k] += (0.3 + 0.6 * i) * c.d * dd[k];
-        randomRotation(r, e);
-        w.goals.push_back(e);
+        w.starts.resize(1);
+        w.goals.resize(1);
+        for (int i = 1; i < c.starts; ++i)
+        {
+            Pose e = s;
+            Vec dd = randomDirection(r, c.n);
+            for (int k = 0; k < c.n; ++k)
+                e.p[k] += (0.3 + 0.6 * i) * c.d * dd[k];
+            randomRotation(r, e);
+            w.starts.push_back(e);
+        }
+        for (int i = 1; i < c.goals; ++i)
+        {
+            Pose e = g;
+            Vec dd = randomDirection(r, c.n);
+            for (int k = 0; k < c.n; ++k)
+                e.p[k] += (0.3 + 0.6 * i) * c.d * dd[k];
+            randomRotation(r, e);
+            w.goals.push_back(e);
+        }
+        if (w.minFocal() >= 0.6L * c.d)
+            break;
+        if (tries > 1000)
+            framework("cannot place several starts / goals");
     }
     // the cost bound is placed relative to the LARGEST focal distance for several pairs when rel >= 0.05 (all
     // PHSs alive) and relative to the smallest otherwise (some are pruned)
